@@ -87,7 +87,8 @@ Strings == <<
   L("str", "STRING", "\"abc\"", "quote", "quote"), L("str", "STRING", "\"stdgates.inc\"", "quote", "quote"),
   L("str", "STRING", "'x y'", "quote", "quote"), L("str", "STRING", "\"a\\\"b\"", "quote", "quote"),
   L("str", "STRING", "\"%%00E9;%%1F600;\"", "quote", "quote"), L("str", "STRING", "\"0 1\"", "quote", "quote"),
-  L("str", "STRING", "\"// no comment\"", "quote", "quote"), L("str", "STRING", "\"it's\"", "quote", "quote") >>
+  L("str", "STRING", "\"// no comment\"", "quote", "quote"), L("str", "STRING", "\"it's\"", "quote", "quote"),
+  L("str", "STRING", "'a\\'b'", "quote", "quote"), L("str", "STRING", "'say \"hi\"'", "quote", "quote"), L("str", "STRING", "\"a\\\\\"", "quote", "quote") >>
 
 Puncts == <<
   P("!", "BANG"), P("%", "PERCENT"), P("&", "AMP"), P("(", "L_PAREN"), P(")", "R_PAREN"),
@@ -116,6 +117,7 @@ Others == <<
 Malformed == <<
   B("m_str", "STRING", "\"abc", "quote", "rest"), B("m_str", "STRING", "'abc", "quote", "rest"),
   B("m_str", "STRING", "\"", "quote", "rest"),
+  B("m_str", "STRING", "'abc\\'", "quote", "rest"), B("m_str", "STRING", "\"abc\\\"", "quote", "rest"), B("m_str", "STRING", "'\\'", "quote", "rest"),
   B("m_bits", "BIT_STRING", "\"01", "quote", "rest"), B("m_bits", "BIT_STRING", "\"0__1", "quote", "rest"),
   B("m_bcomment", "-", "/* abc", "slash", "rest"), B("m_bcomment", "-", "/* a /* b */", "slash", "rest"),
   B("m_base", "INT_NUMBER", "0b", "d", "w"), B("m_base", "INT_NUMBER", "0o", "d", "w"),
